@@ -857,13 +857,13 @@ def save_checkpoint_multiprocess(
         ' https://flax.readthedocs.io/en/latest/guides/training_techniques/use_checkpointing.html#if-you-don-t-save-pytrees'
       )
 
+    orbax_checkpointer.save(
+      ckpt_path, target, force=overwrite
+    )
     if process_index() == 0:
       _remove_invalid_ckpts(
         ckpt_path, base_path, keep, overwrite, keep_every_n_steps, True
       )
-    orbax_checkpointer.save(
-      ckpt_path, target, force=overwrite
-    )
     end_time = time.time()
     monitoring.record_event_duration_secs(
       _WRITE_CHECKPOINT_EVENT, end_time - start_time
